@@ -295,7 +295,20 @@ fn to_engine_event(tb: &Table, idx: usize, ev: &Ev) -> EngineEvent {
     let i = ev.instr();
     let e = tb.ex_of[i];
     match ev {
-        Ev::Open { cid, buy, p, q, .. } => EngineEvent::Command(Command::SendOpenRequests(OneOrMany::One(fixtures::req_open(e, i, cid, side(*buy), d(p), d(q))))),
+        Ev::Open { cid, buy, p, q, .. } => {
+            // the order's kind / time in force follow from its id (a tracked order is a tracked order whatever
+            // its terms: resting limit, post-only, good for the day, immediate-or-cancel, fill-or-kill, market)
+            let mut req = fixtures::req_open(e, i, cid, side(*buy), d(p), d(q));
+            let h = cid.bytes().fold(i as u32, |a, b| a.wrapping_mul(31).wrapping_add(b as u32));
+            (req.state.kind, req.state.time_in_force) = match h % 6 {
+                0 | 1 => (OrderKind::Limit, TimeInForce::GoodUntilCancelled { post_only: false }),
+                2 => (OrderKind::Limit, TimeInForce::GoodUntilCancelled { post_only: true }),
+                3 => (OrderKind::Limit, TimeInForce::GoodUntilEndOfDay),
+                4 => (OrderKind::Limit, TimeInForce::FillOrKill),
+                _ => (OrderKind::Market, TimeInForce::ImmediateOrCancel),
+            };
+            EngineEvent::Command(Command::SendOpenRequests(OneOrMany::One(req)))
+        }
         Ev::Confirm { cid, buy, p, q, filled, t, .. } => fixtures::ev_order_snapshot(
             e,
             i,
